@@ -95,6 +95,17 @@ func (c *Checker) Seen(fp string) bool { _, ok := c.viol[fp]; return ok }
 // NViolations returns the number of distinct fingerprints recorded.
 func (c *Checker) NViolations() int { return len(c.viol) }
 
+// Unstable records a failure that the enumeration really observed (the oracle
+// disagreed with the code under test) but that did not show again when the
+// case was re-run on its own: the code under test behaves differently
+// depending on what it was given before (a cache, a pooled buffer, a lazily
+// built table). It is reported as a violation with the fingerprint
+// fp + "/depends-on-earlier-calls" - never as an engine error: a repository
+// that keeps state between calls must not turn the check into a tool failure.
+func (c *Checker) Unstable(fp, what string, replay interface{}) {
+	c.Report(fp+"/depends-on-earlier-calls", what+" (observed during the enumeration; not reproduced by re-running the case alone: the result depends on earlier calls)", replay)
+}
+
 // EngineError records a failure of the machinery itself (exit status 2,
 // never reported as a violation).
 func (c *Checker) EngineError(format string, args ...interface{}) {
